@@ -80,16 +80,26 @@ def timing(tier):
     sizes = [10 ** 4, 10 ** 5] if tier == 'quick' else [10 ** 4, 10 ** 5, 10 ** 6]
     probes = [('vtime', k) for k in ('digits', 'blanks', 'ident', 'dots')] + \
              [('rtime', k) for k in ('blanks', 'ors', 'hyphens', 'token', 'alts', 'comps', 'digits', 'tildes', 'garbage', 'dots', 'mixed')]
-    cases = [dump([p, str(n), k]) for (p, k) in probes for n in sizes for _ in range(3)]
     ok, out = B.build_harness(True)
     if not ok: return None, 'release harness does not build'
-    p = subprocess.run([B.harness_bin(True)], input='\n'.join(cases) + '\n', stdout=subprocess.PIPE, stderr=subprocess.PIPE, text=True, timeout=1800)
     best = {}
-    for line in p.stdout.split('\n'):
-        if '\t' not in line: continue
-        c, o = line.split('\t'); pc = parse(c); po = parse(o) if o.startswith('(ns') else None
-        if po is None: return None, 'timing probe failed: %s -> %s' % (c, o)
-        key = (pc[0], pc[2], int(pc[1])); best[key] = min(best.get(key, 1 << 62), int(po[1]))
+    for n in sizes:
+        # one harness run per size, smallest first: a parser that is not linear shows up (or runs out of its budget) at the first size it cannot take
+        cases = [dump([p, str(n), k]) for (p, k) in probes for _ in range(3)]
+        budget = 300
+        try:
+            p = subprocess.run([B.harness_bin(True)], input='\n'.join(cases) + '\n', stdout=subprocess.PIPE, stderr=subprocess.PIPE, text=True, timeout=budget)
+            stdout = p.stdout
+        except subprocess.TimeoutExpired as ex:
+            stdout = ex.stdout.decode() if isinstance(ex.stdout, bytes) else (ex.stdout or '')
+            done = [l for l in stdout.split('\n') if '\t' in l]
+            stuck = cases[len(done)] if len(done) < len(cases) else cases[-1]
+            return None, ('SLOW', stuck, 'the release build needs more than %d s for the %d-byte timing probes (15 shapes, 3 runs each); it was working on %s' % (budget, n, stuck))
+        for line in stdout.split('\n'):
+            if '\t' not in line: continue
+            c, o = line.split('\t'); pc = parse(c); po = parse(o) if o.startswith('(ns') else None
+            if po is None: return None, 'timing probe failed: %s -> %s' % (c, o)
+            key = (pc[0], pc[2], int(pc[1])); best[key] = min(best.get(key, 1 << 62), int(po[1]))
     table = {}; worst = 0
     for (p_, k) in probes:
         row = [best[(p_, k, n)] for n in sizes]
@@ -132,7 +142,9 @@ def eval_nopanic(triples, tier, rng):
         elif head == 'errdiag' and o.startswith('(bad'):
             fails.append({'what': 'diagnostic cannot be rendered: %s -> %s' % (c[:200], o[:200]), 'case': c, 'input': [c[:200]], 'kind': 'diag'})
     t, err = timing(tier)
-    if t is None:
+    if t is None and isinstance(err, tuple) and err[0] == 'SLOW':
+        fails.append({'what': 'parse time is far from linear: %s' % err[2], 'case': err[1], 'input': [err[1]], 'kind': 'timing'})
+    elif t is None:
         fails.append({'what': 'timing sweep could not run: %s' % err, 'case': '', 'kind': 'timing', 'no_input': True})
     else:
         dist['timing'] = t
